@@ -19,6 +19,8 @@ RULE = ("history phase: 1-2 committers x 2-5 commits (appends, deletes, expiries
         "concurrent committers and pointer PUT errors) so that metadata files of never-committed versions are left "
         "behind; the committed set is the list of versions the pointer ever named (flip log). Then the pointer is "
         "replaced by one of: missing, empty, whitespace, noise, invalid UTF-8, legacy numeric naming nothing, "
+        "numeric strings str.isdigit() accepts but int() does not (superscript / circled digits, 5000 digits), other-script "
+        "digits, a signed number, names with NUL / upper-case hex / a path component, "
         "well-formed name of a file that never existed (version below / above the latest), the right name with "
         "trailing newline / spaces, a STALE committed version, or a legacy numeric pointer next to a legacy-named copy "
         "of the latest version. A fresh process then runs a seeded subsequence of {load_table, create_table(other "
@@ -36,7 +38,9 @@ EXPECT_PROBES = ["pointer_unusable", "cas_conflict", "failed_pointer_write",
                  "stale_pointer"]
 
 POINTERS = ["missing", "empty", "whitespace", "noise", "badutf8", "legacy_nothing", "named_missing_low",
-            "named_missing_high", "trailing_newline", "trailing_spaces", "stale", "legacy_layout", "intact"]
+            "named_missing_high", "trailing_newline", "trailing_spaces", "stale", "legacy_layout", "intact",
+            "unicode_digit", "circled_digit", "huge_number", "arabic_digits", "signed_number", "name_with_nul",
+            "name_uppercase_hex", "name_with_path"]
 AFTER = ["load", "create_other", "append", "gc", "reopen"]
 
 
@@ -64,8 +68,15 @@ def gen(rng: random.Random, tier: str, idx: int) -> dict:
         if backend == "local":
             faults.append({"kind": "error", "actor": f"a{a}", "op": "replace", "cls": "HINT", "nth": rng.randint(1, 4),
                            "exc": rng.choice(["EIO", "ENOSPC"])})
-        # (S3: uncommitted metadata comes from lost CAS races between the two committers; a pointer PUT
-        # error there is an AMBIGUOUS outcome whose file must legitimately stay - not part of this property)
+        else:
+            # S3 pointer PUT error = AMBIGUOUS outcome: the metadata file must stay (the PUT may have landed)
+            faults.append({"kind": "error", "actor": f"a{a}", "op": "put", "cls": "HINT", "nth": rng.randint(1, 4),
+                           "exc": rng.choice(["InternalError", "EndpointConnectionError"])})
+    if rng.random() < 0.12:
+        # a committer killed between its metadata write and the pointer flip leaves the same kind of file behind
+        a = rng.randrange(nact)
+        faults.append({"kind": "crash", "actor": f"a{a}", "op": "replace" if backend == "local" else "put", "cls": "HINT",
+                       "nth": rng.randint(1, 3)})
     after = [x for x in AFTER if rng.random() < 0.6] or ["load"]
     if after[0] not in ("load", "create_other", "append"):
         after.insert(0, rng.choice(["load", "create_other", "append"]))
@@ -126,6 +137,22 @@ def _damage(w, ptr, latest_name, latest_ver, committed, view, tnow):
         _write_pointer(w, b"v3-\xff\xfe\xfd.metadata.json", tnow)
     elif ptr == "legacy_nothing":
         _write_pointer(w, str(latest_ver).encode(), tnow)
+    elif ptr == "unicode_digit":
+        _write_pointer(w, "\u00b2".encode("utf-8"), tnow)            # SUPERSCRIPT TWO: str.isdigit() is True, int() fails
+    elif ptr == "circled_digit":
+        _write_pointer(w, "\u2460".encode("utf-8"), tnow)            # CIRCLED DIGIT ONE
+    elif ptr == "huge_number":
+        _write_pointer(w, b"9" * 5000, tnow)                         # beyond the int-conversion digit limit
+    elif ptr == "arabic_digits":
+        _write_pointer(w, "\u0663".encode("utf-8"), tnow)            # ARABIC-INDIC DIGIT THREE: int() accepts it
+    elif ptr == "signed_number":
+        _write_pointer(w, b"-1", tnow)
+    elif ptr == "name_with_nul":
+        _write_pointer(w, b"v1-0000\x000000.metadata.json", tnow)
+    elif ptr == "name_uppercase_hex":
+        _write_pointer(w, b"v1-DEADBEEF.metadata.json", tnow)
+    elif ptr == "name_with_path":
+        _write_pointer(w, b"../v1-deadbeef.metadata.json", tnow)
     elif ptr == "named_missing_low":
         _write_pointer(w, b"v0-deadbeef.metadata.json", tnow)
     elif ptr == "named_missing_high":
@@ -185,6 +212,16 @@ def execute(plan: dict, scratch: str, replay: Optional[dict] = None) -> dict:
         rel = "higher" if mx > latest_ver else ("equal" if mx == latest_ver else "lower")
         if rel == "higher":
             sim.probe("orphan_higher_version")
+        # why is it there? clean failures remove their file (fix 6e33d4e); what remains comes from outcomes that
+        # cannot be cleaned up: an ambiguous pointer write (the file may be referenced) or a dead writer
+        if any(h.get("exc") == "AmbiguousCommitError" for h in w.history):
+            cause = "ambiguous"
+        elif any(not p_.alive for p_ in sim.procs.values()):
+            cause = "crash"
+        else:
+            cause = "clean"
+        rel = f"{rel}:{cause}"
+        sim.probe(f"orphan_from_{cause}")
     # ---- damage the pointer
     tnow = sim.true_time()
     stale_name = None
